@@ -51,6 +51,8 @@ struct thr {
 static struct thr thrs[MAXT];
 static int nthr;
 static pthread_barrier_t barrier;
+static pthread_barrier_t sync_barrier;   /* round 4: (c13-barrier) inside workloads */
+static int sync_on;
 static int initrace;   /* every thread calls sexp_scheme_init() itself, concurrently (protocol violation probe) */
 
 /* ------------------------------------------------------------------ heap audit (isolation invariant) */
@@ -160,6 +162,15 @@ static sexp eval_all (sexp ctx, const char *text) {
     x = sexp_read(ctx, in);
     if (x == SEXP_EOF) break;
     if (sexp_exceptionp(x)) { res = x; break; }
+    /* round 4: the form (c13-barrier) is not evaluated: the OS thread waits until every thread of the run reached its
+       own (c13-barrier), so that the loops that follow (library calls with context-specific arguments) overlap in time */
+    if (sexp_pairp(x) && sexp_symbolp(sexp_car(x)) && sexp_nullp(sexp_cdr(x))) {
+      str = sexp_symbol_to_string(ctx, sexp_car(x));
+      if (sexp_stringp(str) && strcmp(sexp_string_data(str), "c13-barrier") == 0) {
+        if (sync_on) pthread_barrier_wait(&sync_barrier);
+        continue;
+      }
+    }
     res = sexp_eval(ctx, x, NULL);
     if (sexp_exceptionp(res)) break;
   }
@@ -823,6 +834,8 @@ int main (int argc, char **argv) {
       before[k][n < 0 ? 0 : n] = 0;
     }
   pthread_barrier_init(&barrier, NULL, nthr);
+  pthread_barrier_init(&sync_barrier, NULL, nthr);
+  sync_on = 1;
   for (i = 0; i < nthr; i++)
     if (pthread_create(&thrs[i].th, NULL, thread_main, &thrs[i])) { perror("pthread_create"); return 2; }
   for (i = 0; i < nthr; i++)
